@@ -905,6 +905,9 @@ func (p *Parser) parseAsteriskInsertExpr() (expression, bool, error) {
 	if ok {
 		return &asteriskInsertExpr{sources: sources, raw: p.input[cp.pos:p.pos]}, true, nil
 	}
+	if err == nil {
+		cp.restore()
+	}
 	return nil, false, err
 }
 
